@@ -86,3 +86,34 @@ fn c12_nothing_hidden_no_sd_list() {
     std::mem::forget(out); std::mem::forget(iss); std::mem::forget(claims);
 }
 
+
+/// three hidden members: `_sd` sorted for all 3! orders of the digests
+#[kani::proof]
+#[kani::unwind(5)]
+#[kani::stub(alloc::fmt::format, fmt_stub)]
+fn c12_three_digests_sorted() {
+    ho::hash_on(2, b'd');
+    ho::disclosure_on();
+    let mut iss = mk_issuer(false);
+    let mut claims = JMap::new();
+    put(&mut claims, "a", jnum(1));
+    put(&mut claims, "b", jnum(2));
+    put(&mut claims, "c", jnum(3));
+    let out = iss.create_sd_claims_object(&claims, ClaimsForSelectiveDisclosureStrategy::AllLevels);
+    let o = match &out { JValue::Object(o) => o, _ => { assert!(false, "C12.c0 object stays object"); return; } };
+    let sd = match o.get("_sd") { Some(JValue::Array(a)) => a, _ => { assert!(false, "C12.c1 _sd list present"); return; } };
+    assert!(o.len() == 1 && sd.len() == 3, "C12.c2 three digests, nothing in clear");
+    let (d0, d1, d2) = (sd[0].as_str().unwrap(), sd[1].as_str().unwrap(), sd[2].as_str().unwrap());
+    assert!(le(d0, d1) && le(d1, d2), "C12.c3 the _sd list must be sorted");
+    #[allow(static_mut_refs)]
+    unsafe {
+        let h = &ho::DISC_HASHES;
+        assert!(h.len() == 3, "C12.c4 three disclosures");
+        let present = |x: &str| streq(x, d0) || streq(x, d1) || streq(x, d2);
+        assert!(present(&h[0]) && present(&h[1]) && present(&h[2]), "C12.c5 every issued disclosure is referenced");
+        kani::cover!(streq(d0, &h[2]) && streq(d2, &h[0]), "reverse of member order");
+        kani::cover!(streq(d0, &h[0]) && streq(d1, &h[1]), "member order");
+    }
+    kani::cover!(true, "end");
+    std::mem::forget(out); std::mem::forget(iss); std::mem::forget(claims);
+}
